@@ -131,63 +131,7 @@ var c05Exempt = map[string]string{
 
 func runC05(c *Ctx) {
 	p := c.P
-	// ---------- R1 ----------
-	exempt := func(f *ssa.Function) bool {
-		_, ok := c05Exempt[outermost(f).Name()]
-		return ok && shortPkg(fnPkgPath(f)) == "waddrmgr"
-	}
-	nUse := 0
-	for _, fn := range p.FuncsIn("waddrmgr") {
-		for _, b := range fn.Blocks {
-			for _, ins := range b.Instrs {
-				if isPrivUse(ins) {
-					nUse++
-				}
-			}
-		}
-	}
-	c.Floor("C05-R1", "private-material use sites in waddrmgr", nUse, 20)
-	modes := []struct {
-		name string
-		env  modeEnv
-	}{
-		// p:IsPrivate=false: while locked / watching-only no private extended key exists, because the private account
-		// key is only ever selected under the unlocked guard (obligation C03-R3) and lock() wipes it (R2).
-		{"locked", modeEnv{"p:IsLocked": bTrue, "p:WatchOnly": bFalse, "p:IsPrivate": bFalse}},
-		{"watching-only", modeEnv{"p:IsLocked": bTrue, "p:WatchOnly": bTrue, "p:IsPrivate": bFalse}},
-	}
-	nEntry := 0
-	interps := map[string]*modeInterp{}
-	for _, m := range modes {
-		interps[m.name] = &modeInterp{p: p, preds: map[string]bool{"IsLocked": true, "WatchOnly": true, "IsPrivate": true}, target: privUse, taintSrc: isPrivLoad, containsTarget: containsPrivUse, exempt: exempt, depthLimit: 6}
-	}
-	for _, fn := range p.FuncsIn("waddrmgr") {
-		if fn.Parent() != nil || fn.Object() == nil || exempt(fn) {
-			continue
-		}
-		// API boundary: exported functions/methods, and methods implementing the exported address interfaces
-		if !fn.Object().Exported() {
-			continue
-		}
-		nEntry++
-		for _, m := range modes {
-			mi := interps[m.name]
-			hit := mi.reachable(fn, m.env, 0)
-			detail := ""
-			if hit != nil {
-				k := ""
-				for _, op := range hit.Operands(nil) {
-					if *op != nil && isPrivLoad(*op) {
-						k = holderKeyOfAddr((*op).(*ssa.UnOp).X)
-					}
-				}
-				detail = fmt.Sprintf("while the manager is %s, %s can reach a use of private material %s in %s at %s (the operation does not fail with a locked / watching-only error first)",
-					m.name, fnName(fn), k, fnName(hit.Parent()), p.Pos(hit.Pos()))
-			}
-			c.Check("C05-R1", "no-private-use-while-"+m.name+":"+fnName(fn), fn.Pos(), hit == nil, detail)
-		}
-	}
-	c.Floor("C05-R1", "exported entry points analysed", nEntry, 100)
+	checkLockGating(c, "C05-R1")
 
 	// ---------- R2 ----------
 	lock := p.Func("waddrmgr", "Manager", "lock")
@@ -559,4 +503,67 @@ func checkPassphraseChange(c *Ctx, rule string) {
 		}
 	}
 	c.Check(rule, "new-key-zeroed-when-locked", cp.Pos(), okLockedZero, "when the passphrase is changed while locked, the freshly derived clear master key is not zeroed")
+}
+
+// checkLockGating: path-sensitive lock gating of every use of private material (shared by C05-R1 and C04-R6).
+func checkLockGating(c *Ctx, rule string) {
+	p := c.P
+	// ---------- R1 ----------
+	exempt := func(f *ssa.Function) bool {
+		_, ok := c05Exempt[outermost(f).Name()]
+		return ok && shortPkg(fnPkgPath(f)) == "waddrmgr"
+	}
+	nUse := 0
+	for _, fn := range p.FuncsIn("waddrmgr") {
+		for _, b := range fn.Blocks {
+			for _, ins := range b.Instrs {
+				if isPrivUse(ins) {
+					nUse++
+				}
+			}
+		}
+	}
+	c.Floor(rule, "private-material use sites in waddrmgr", nUse, 20)
+	modes := []struct {
+		name string
+		env  modeEnv
+	}{
+		// p:IsPrivate=false: while locked / watching-only no private extended key exists, because the private account
+		// key is only ever selected under the unlocked guard (obligation C03-R3) and lock() wipes it (R2).
+		{"locked", modeEnv{"p:IsLocked": bTrue, "p:WatchOnly": bFalse, "p:IsPrivate": bFalse}},
+		{"watching-only", modeEnv{"p:IsLocked": bTrue, "p:WatchOnly": bTrue, "p:IsPrivate": bFalse}},
+	}
+	nEntry := 0
+	interps := map[string]*modeInterp{}
+	for _, m := range modes {
+		interps[m.name] = &modeInterp{p: p, preds: map[string]bool{"IsLocked": true, "WatchOnly": true, "IsPrivate": true}, target: privUse, taintSrc: isPrivLoad, containsTarget: containsPrivUse, exempt: exempt, depthLimit: 6}
+	}
+	for _, fn := range p.FuncsIn("waddrmgr") {
+		if fn.Parent() != nil || fn.Object() == nil || exempt(fn) {
+			continue
+		}
+		// API boundary: exported functions/methods, and methods implementing the exported address interfaces
+		if !fn.Object().Exported() {
+			continue
+		}
+		nEntry++
+		for _, m := range modes {
+			mi := interps[m.name]
+			hit := mi.reachable(fn, m.env, 0)
+			detail := ""
+			if hit != nil {
+				k := ""
+				for _, op := range hit.Operands(nil) {
+					if *op != nil && isPrivLoad(*op) {
+						k = holderKeyOfAddr((*op).(*ssa.UnOp).X)
+					}
+				}
+				detail = fmt.Sprintf("while the manager is %s, %s can reach a use of private material %s in %s at %s (the operation does not fail with a locked / watching-only error first)",
+					m.name, fnName(fn), k, fnName(hit.Parent()), p.Pos(hit.Pos()))
+			}
+			c.Check(rule, "no-private-use-while-"+m.name+":"+fnName(fn), fn.Pos(), hit == nil, detail)
+		}
+	}
+	c.Floor(rule, "exported entry points analysed", nEntry, 100)
+
 }
